@@ -223,9 +223,11 @@ impl Check for Lifecycle {
 
     fn budget(&self, tier: &str) -> usize {
         match (self.id, tier) {
-            ("C06", "thorough") => 600_000,
+            ("C06", "thorough") => 1_500_000,
             ("C06", _) => 20_000,
-            ("C05", "thorough") => 300_000,
+            ("C05", "thorough") => 600_000,
+            ("C07", "thorough") => 250_000,
+            ("C28", "thorough") => 800_000,
             ("C05", _) => 10_000,
             (_, "thorough") => 400_000,
             _ => 12_000,
